@@ -159,9 +159,13 @@ def run_case(case, ctx):
     M = ttb.ktensor([f.copy() for f in fm], lam.copy())
     Md = denote(M)
     Xd = _data_vals(rng, case["ddom"], int(np.prod(shape))).reshape(shape)
-    X = ttb.tensor(Xd.copy())
+    # counts and binary data as a counting process / a comparison hands them over: integer and boolean element types
+    dts = {"count": [None, "int64", "int32", "uint8"], "binary": [None, "bool", "uint8", "int64"]}.get(case["ddom"], [None])
+    dt = dts[case["cseed"] % len(dts)]
+    ctx.feat(data_type=str(dt))
+    X = ttb.tensor(Xd.copy() if dt is None else Xd.astype(dt))
     if case["sparse_data"]:
-        X = gen.mk_sptensor(ttb, Xd, gen.stored_order(rng, int(np.count_nonzero(Xd)), "shuffled"))
+        X = gen.mk_sptensor(ttb, Xd if dt is None else Xd.astype(dt), gen.stored_order(rng, int(np.count_nonzero(Xd)), "shuffled"), dtype=(None if dt is None else np.dtype(dt)))
     W = None
     if case["wk"] == "mask":
         W = (rng.random(shape) < 0.7).astype(float)
@@ -202,6 +206,30 @@ def run_case(case, ctx):
                   # the Kruskal weights left out (C12-K3)
                   follows_handle=bool(np.asarray(G[k]).shape == Gp_k.shape and np.max(np.abs(G[k] - Gp_k)) <= 1e-9 * gs),
                   ignores_weights=bool(np.asarray(G[k]).shape == Gnw_k.shape and np.max(np.abs(G[k] - Gnw_k)) <= 1e-9 * gs))
+    if case["sparse_data"] and int(np.count_nonzero(Xd)) >= 2 and len(set(Xd[Xd != 0].tolist())) >= 2:
+        # the same data object, edited in place between two evaluations: the second evaluation sees the edited values (nothing is
+        # remembered about an operand between calls)
+        nzv = np.asarray(X.vals).reshape(-1).copy()
+        pm = np.roll(np.arange(len(nzv)), 1)
+        X.vals[:, 0] = nzv[pm]
+        Xd2 = np.zeros(shape)
+        Xd2[tuple(np.asarray(X.subs).T)] = np.asarray(X.vals).reshape(-1)
+        with np.errstate(all="ignore"):
+            L2 = np.asarray(fh(Xd2, Md), dtype=float)
+            Yh2 = np.asarray(gh(Xd2, Md), dtype=float)
+        Yh2 = Yh2 if W is None else Yh2 * W
+        rr = ctx.call("evaluate", evaluate, M, X, None if W is None else W.copy(), fh, gh)
+        if rr.ok:
+            F2, G2 = rr.value
+            F2ref = float(np.sum(L2 if W is None else L2 * W))
+            fs2_ = float(np.sum(np.abs(L2 if W is None else L2 * W))) + 1e-300
+            ctx.check(abs(F2 - F2ref) <= 1e-10 * fs2_, "evaluate", "WRONG-OBJECTIVE", f"after editing the sparse data in place: F = {F2!r}, sum of the loss = {F2ref!r}", after_edit=True)
+            for k in range(N):
+                Gp2 = refops.mttkrp(Yh2, fm, k) if lamk != "unit" else refops.mttkrp(Yh2, fm, k, weights=lam)
+                gs2 = float(np.max(np.abs(refops.mttkrp(np.abs(Yh2), [np.abs(f) for f in fm], k)))) + 1e-300
+                ctx.check(bool(np.max(np.abs(G2[k] - Gp2)) <= 1e-9 * gs2), "evaluate", "STALE-GRADIENT", f"mode {k}: gradient after an in-place edit of the data is not that of the edited data",
+                          mode_k=min(k, 3), after_edit=True)
+        X.vals[:, 0] = nzv
     # function-only and gradient-only call forms agree with the joint form
     r1 = ctx.call("evaluate", evaluate, M, X, None if W is None else W.copy(), fh, None)
     r2 = ctx.call("evaluate", evaluate, M, X, None if W is None else W.copy(), None, gh)
